@@ -21,7 +21,7 @@ pub fn prop() -> Prop {
          diagnostic's line_column_range() and to_json().locations agree with the reference for the diagnostic's \
          span. Non-trivial: a multi-byte character or a non-\\n separator occurs in the text; distinct by text.",
     )
-    .random("documents", check, |t| if t == Tier::Quick { 200_000 } else { 2_000_000 }, |t| if t == Tier::Quick { 400 } else { 800 })
+    .random("documents", check, |t| if t == Tier::Quick { 500_000 } else { 2_000_000 }, |t| if t == Tier::Quick { 400 } else { 800 })
     .text(check_text)
 }
 
